@@ -625,4 +625,45 @@ example :
     (Lazy.run ev (fun (_ : Unit) r => r) Lazy.St.init [(), (), ()]).1.map (fun a => match a with | .ok n => n | .error _ => 0)
       = [1, 1, 1] := by decide
 
+
+/-! ## two order-sensitive sites found by probing the unchanged tree (round 3), repaired in the code; the model never had an order
+    parameter there (graph node order, the later definition wins) - the witnesses pin what the repaired code must answer -/
+
+section fixedOrderSites
+open SqlLineage.Ast SqlLineage.Walk
+
+private def selX (frm : FromElem) : Query := .select false [.mk (.col [] "x") none false] [.mk frm []] none [] none
+
+/-- `insert into tgt with a as (select x from t1) select x from (with a as (select x from t2) select x from a) s` -/
+def exCteShadow : Stmt :=
+  .insert .insertInto false ["tgt"] none
+    (.withq [.mk "a" (selX (.table ["t1"] none false))]
+      (selX (.derived (.withq [.mk "a" (selX (.table ["t2"] none false))] (selX (.table ["a"] none false))) (some "s") false)))
+    false
+
+/-- **D52 repaired**: an inner WITH that defines a CTE with the name of an outer one shadows it: the only reported path runs from
+    `t2.x` (before the repair the CTE lookup iterated a SET of SubQuery objects, and `t1.x` or `t2.x` won depending on the hash seed) -/
+theorem fixed_D52_inner_cte_shadows :
+    (match analyze {} false exCteShadow with
+      | .ok g => decide (((Paths.columnLineage g).map (fun (p : List Node) => (p.head?, p.getLast?))) =
+          [(some (.col "<default>.t2.x" (some (.table "<default>" "t2"))),
+            some (.col "<default>.tgt.x" (some (.table "<default>" "tgt"))))])
+      | .error _ => false) = true := by decide +kernel
+
+/-- `update tgt set c = x.d from s1.x, s2.x` -/
+def exUpdateClash : Stmt :=
+  .update ["tgt"] none [⟨["c"], .col ["x"] "d"⟩]
+    [.mk (.table ["s1", "x"] none false) [], .mk (.table ["s2", "x"] none false) []] none
+
+/-- **D51 repaired**: with two FROM tables sharing a bare name the qualifier denotes the LATER one, in statement order (before the
+    repair the alias mapping was built from `list(holder.read)`, a set: `s1.x.d` or `s2.x.d` depending on the hash seed) -/
+theorem fixed_D51_update_from_later_table_wins :
+    (match analyze {} false exUpdateClash with
+      | .ok g => decide (((Paths.columnLineage g).map (fun (p : List Node) => (p.head?, p.getLast?))) =
+          [(some (.col "s2.x.d" (some (.table "s2" "x"))),
+            some (.col "<default>.tgt.c" (some (.table "<default>" "tgt"))))])
+      | .error _ => false) = true := by decide +kernel
+
+end fixedOrderSites
+
 end SqlLineage.Props.C11
